@@ -8,7 +8,9 @@ Two program modes over a fixed variable schema (T = int or real, chosen per prog
   'vector' : section assignments (disjoint / overlapping backward / same-stride strided incl. negative / lower bounds /= 1 /
              multi-dimensional / mixed rank / scalar broadcast / RHS with bare ':' / whole arrays / elemental intrinsics /
              reductions), WHERE (+ELSEWHERE) aligned with a companion loop, one-line IF with a section assignment,
-             explicit loops (whose ranges and variables the resolver re-uses), calls with whole-array arguments
+             explicit loops (whose ranges and variables the resolver re-uses), calls with whole-array arguments;
+             with add/remove_explicit_array_dimensions among the entry points (40 %): 1-2 top-level statements whose references
+             carry only open ranges with a stride (`b(::2) = a(::2)*3`, `zm(:, ::2) = lm(:, ::2) + x`, `call hstr3(za(::2), zc(::2))`)
   'index'  : arrays with lower bounds /= 1 accessed by elements (literal / loop-variable subscripts), explicitly bounded
              unit-stride sections of 1-D arrays, whole-array operations, calls; declarations optionally written '(1:n)'
 
@@ -717,6 +719,71 @@ def index_section(g, env, s, strided=False):
     return ['assign', sec_expr(n, lhs), rhs]
 
 
+# ------------------------------------------------------------------ fully-open strided references
+OPEN_STRIDE_ENTRIES = ('add_explicit_array_dimensions', 'remove_explicit_array_dimensions')
+OPEN_STRIDE_HELPER = 'hstr3'
+
+
+def open_sec(name, strides):
+    """`name(::st, :, ...)`: every subscript an open range (no bounds), st = 1 -> bare ':'"""
+    return ['d', [[name, [['rng', None, None, None if st == 1 else lit(st)] for st in strides]]]]
+
+
+def open_stride_helper(T):
+    """hstr3(x, y): explicit-shape dummies of extent 3 (a section `a(::2)` of an array of extent 5 or 6 is the actual argument)"""
+    x = lambda k: ['d', [['x', [lit(k)]]]]
+    y = lambda k: ['d', [['y', [lit(k)]]]]
+    body = [['assign', x(1), ['b', '+', x(1), y(3)]], ['assign', x(2), ['b', '-', x(2), y(1)]],
+            ['assign', x(3), ['b', '-', y(2), x(3)]]]
+    return routine(OPEN_STRIDE_HELPER, ['x', 'y'], [decl('x', T, dims=[[1, 3]], intent='inout'), decl('y', T, dims=[[1, 3]], intent='in')],
+                   body)
+
+
+def open_stride_stmt(g, env, s):
+    """
+    one top-level statement whose array references carry ONLY open ranges, at least one of them strided
+    (`b(::2) = a(::2)*3`, `zm(:, ::2) = lm(:, ::2) + x`, `call hstr3(za(::2), zc(::2))`): the sections are conformable by
+    construction (extents 5 and 6 give the same element count for the strides 2, 3, 4; the 2-D arrays are 3x4 and 3x3),
+    both sides use the same stride, a same-array term is the identical section (no overlap), strides are positive (an open
+    range with a negative stride is empty). Returns (stmt, needs_helper).
+    """
+    T = s.T
+    one = [n for n in s.dims if len(s.dims[n]) == 1 and s.dims[n][0][1] != 'n' and env.vars[n]['type'] == T]
+    one_w = [n for n in one if not env.vars[n].get('ro')]
+    two = [n for n in s.dims if len(s.dims[n]) == 2 and env.vars[n]['type'] == T]
+    two_w = [n for n in two if not env.vars[n].get('ro')]
+    kind = g.pick(['1d', '1d', '1d', '2d', '2d', 'call', 'call', 'zn'])
+    g2 = s.gq(g)
+    if kind == 'call' and len(one) >= 2 and one_w:
+        a = g.pick(one_w)
+        b = g.pick([n for n in one if n != a])
+        s.feats.add('open-stride:call-arg')
+        return ['call', OPEN_STRIDE_HELPER, [open_sec(a, [2]), open_sec(b, [2])], {}], True
+    if kind == '2d' and two_w:
+        a = g.pick(two_w)
+        b = g.pick(two)
+        strides = g.pick([[1, 2], [2, 2]])
+        rhs = ['b', g.pick(['+', '-', '*']), open_sec(b, strides), scalar_operand(g, g2, env, s, T, 1, a)]
+        if b != a and g.chance(30):
+            rhs = ['b', '+', rhs, open_sec(a, strides)]
+        s.feats.add('open-stride:2d')
+        return ['assign', open_sec(a, strides), rhs], False
+    if kind == 'zn' and s.dims.get('zn') and not env.vars['zn'].get('ro'):
+        stt = g.pick([2, 2, 3])
+        rhs = ['b', g.pick(['+', '*']), open_sec('zn', [stt]), scalar_operand(g, g2, env, s, env.vars['zn']['type'], 1, 'zn')]
+        s.feats.add('open-stride:1d-extent-n')
+        return ['assign', open_sec('zn', [stt]), rhs], False
+    a = g.pick(one_w)
+    b = g.pick(one)
+    stt = g.pick([2, 2, 2, 3, 4])
+    rhs = open_sec(b, [stt])
+    if g.chance(80):
+        rhs = ['b', g.pick(['+', '-', '*']), rhs, scalar_operand(g, g2, env, s, T, 1, a)]
+    s.feats.add('open-stride:1d')
+    return ['assign', open_sec(a, [stt]), rhs], False
+
+
+
 # ------------------------------------------------------------------ hazard templates
 def hazard_stmts(g, env, s, tag):
     obs = []
@@ -897,6 +964,22 @@ def cases(draw, hazard=None, nvec=4, minimal=False):
             body.append(r[0])
             groups.append(1)
             s.ncertain += 1
+    if (mode == 'vector' and not hazard and not minimal and any(xf['entry'] in OPEN_STRIDE_ENTRIES for xf in xforms)
+            and g.chance(40)):
+        # fully-open strided references (`b(::2) = a(::2)*3`, `zm(:, ::2)`, call arguments of that shape) in programs on
+        # which add/remove_explicit_array_dimensions are applied: top level only (no enclosing loop), own statement groups
+        need = False
+        for _ in range(g.i(1, 2)):
+            st_, hlp = open_stride_stmt(g, env, s)
+            need = need or hlp
+            cut = g.i(0, len(groups))
+            pos = sum(groups[:cut])
+            body = body[:pos] + [st_] + body[pos:]
+            groups = groups[:cut] + [1] + groups[cut:]
+            s.ncertain += 1
+        s.feats.add('open-stride')
+        if need:
+            subs_r.append(open_stride_helper(T))
     if hazard:
         s.allow.add(hazard)
         hz_stmts = hazard_stmts(g, env, s, hazard)
